@@ -3,11 +3,13 @@
 
    native = run_block_generator2 (full validation; mirror in Chain/Generator.v over the Cond mirror);
    helpers = mirrors in Chain/Trusted.v.  CLVM evaluation is the oracle `run` (budget-monotone and exact). *)
+From Coq Require Import Permutation.
 From ChiaV.Base Require Import Bytes.
 From ChiaV.Clvm Require Import Sexp TreeHash.
-From ChiaV.Gen Require Import ChainConsts.
+From ChiaV.Gen Require Import Opcodes ChainConsts.
 From ChiaV.Cond Require Import Model.
 From ChiaV.Chain Require Import Backref Rom Generator GeneratorSpec Trusted TrustedSpec TrustedProofs TrustedRebuildProofs.
+From ChiaV.Chain Require Import TrustedOrderSpec TrustedOrderProofs.
 Open Scope N_scope.
 
 (* For every generator full validation accepts (within the block cost limit): additions_and_removals succeeds;
@@ -124,12 +126,69 @@ Theorem C09_build_generator_reverses : forall l items,
   forall acc, prepend_spends l acc = Some (fold_right Pair acc (rev items)).
 Proof. exact prepend_in_order. Qed.
 
-(* C09_rebuild_in_order_partial: feeding the coin spends IN ORDER gives (by C09_build_generator_reverses) the generator
-   whose spend list is reversed; that full validation accepts it with the reversed spends and otherwise equal
-   aggregates is NOT proved here: it needs the order invariance of the block path (property C06; unit bundle has it
-   for the mempool path and, through C08_agree, for its own block-path mirror Bundle/BlockPath.v, which differs from
-   Chain/Generator.v in result type, execution-cost bookkeeping and the plain parser).  Missing step: a bridge lemma
-   Chain.Generator.run_block_generator2 = Bundle.BlockPath.run_block_generator2 on plain, reference-free programs. *)
+(* IN-ORDER feed (former C09_rebuild_in_order_partial), by a bridge from this unit's mirror of run_block_generator2 to
+   unit bundle's (Bundle/BlockPath.v) and unit bundle's agreement/order theorems (AgreeProofs.agree_rev,
+   OrderFullProofs.agree_full_same).  Hypotheses on the oracle: unit bundle's two (run_intrinsic_hyp: every
+   evaluation has an intrinsic cost and result, below which it reports the cost error; run_quote_exact_hyp: (q . x)
+   costs exactly 20), which imply this unit's run_exact_hyp and run_quote_hyp; and the signature check does not
+   depend on the order of the pairs.  Scope: not INTERNED_GENERATOR; at most MAX_SPENDS_PER_BLOCK spends; puzzles
+   and solutions within the 2 MB Program limit (fits_tuple); budget of the form m + REBUILD_OVERHEAD.
+   For the recovered coin spends cs, pF = solution_generator(cs) (in order) and pR = solution_generator(rev cs):
+   full validation gives the same verdict on both (both accept, or both reject and pR's error is the cost limit), and
+   on acceptance
+     - EQUAL between pF and pR (reversed_summary): cost, execution cost, condition cost, removal and addition
+       amounts, reserve fee, the four absolute locks;
+     - EQUAL between pR and the original accepted block: the whole neutral summary (C09_rebuild);
+     - REVERSED: the reported spends of pF are those of pR (hence of the original, up to the per-spend execution-cost
+       bookkeeping erased by erase_s) in reverse order, up to the two mempool-only flag bits
+       ELIGIBLE_FOR_FF / ELIGIBLE_FOR_DEDUP (erase_flags);
+     - PERMUTATION only: agg_sig_unsafe and the (public key, message) pairs.
+   Total cost and execution cost of pF are equal to pR's, not to the original block's (the rebuilt program has a
+   different size and costs 20 to run). *)
+Theorem C09_rebuild_in_order : forall run valid_key sig_ok H K,
+  run_intrinsic_hyp run -> run_quote_exact_hyp run ->
+  (forall l l' : list (bytes * bytes), Permutation l l' -> sig_ok l = sig_ok l') ->
+  forall program refs max_cost gf b spends pairs,
+    run_block_generator2 run valid_key sig_ok H K program refs max_cost gf = Ok (b, spends, pairs) ->
+    max_cost <= MAX_BLOCK_COST_CLVM ->
+    g_interned gf = false -> N.of_nat (length spends) <= MAX_SPENDS_PER_BLOCK ->
+    exists out iter cs,
+      native_generator_output run program refs max_cost gf = Ok out /\ first out = Ok iter /\
+      get_coinspends_for_trusted_block run H program refs gf = Ok cs /\
+      (Forall fits_tuple (spend_tuples iter) ->
+       forall pF pR m,
+         solution_generator cs = Some pF -> solution_generator (rev cs) = Some pR ->
+         match run_block_generator2 run valid_key sig_ok H K pF [] (m + REBUILD_OVERHEAD) gf,
+               run_block_generator2 run valid_key sig_ok H K pR [] (m + REBUILD_OVERHEAD) gf return Prop with
+         | Ok sF, Ok sR => reversed_summary sF sR /\ neutral sR = neutral (b, spends, pairs) /\
+                           reversed_of_original sF (b, spends, pairs)
+         | Err _, Err eR => eR = CostExceeded
+         | _, _ => False
+         end).
+Proof. exact rebuild_in_order_thm. Qed.
+
+(* unit bundle's oracle hypotheses imply this unit's *)
+Theorem C09_intrinsic_implies_exact : forall run, run_intrinsic_hyp run -> run_exact_hyp run.
+Proof. exact intrinsic_exact. Qed.
+
+Theorem C09_quote_exact_implies_quote : forall run, run_quote_exact_hyp run -> run_quote_hyp run.
+Proof. exact quote_exact_quote. Qed.
+
+(* joint non-vacuity: one oracle satisfies every hypothesis used in C07/C09 (this unit's and unit bundle's) together;
+   on a two-spend generator the in-order rebuild differs from the original program, is accepted, and reports the two
+   spends in the other order *)
+Theorem C09_rebuild_in_order_example :
+  exists run H, run_oracle_ok run H /\ run_intrinsic_hyp run /\ run_quote_exact_hyp run /\
+  exists vk sig K program max_cost gf b spends pairs cs pF sF m,
+    (forall l l' : list (bytes * bytes), Permutation l l' -> sig l = sig l') /\
+    run_block_generator2 run vk sig H K program [] max_cost gf = Ok (b, spends, pairs) /\
+    length spends = 2%nat /\
+    get_coinspends_for_trusted_block run H program [] gf = Ok cs /\
+    solution_generator cs = Some pF /\ pF <> program /\
+    run_block_generator2 run vk sig H K pF [] (m + REBUILD_OVERHEAD) gf = Ok sF /\
+    reversed_of_original sF (b, spends, pairs) /\
+    map erase_flags (map erase_s (snd (fst sF))) <> map erase_flags (map erase_s spends).
+Proof. exact in_order_example. Qed.
 
 (* SpendBundle::additions on the recovered coin spends of an accepted block, under NO_UNKNOWN_CONDS (a bundle valid
    in mempool mode): it lists exactly the created coins of the validated spends, in order, or runs out of its own
